@@ -298,3 +298,116 @@ func (h *H) entrust() {
 		}
 	}
 }
+
+// ---- a pending Ask must be failed at the START of the asker's termination ----
+//
+// doKill completes the futures the dying actor is waiting on with actor-dead BEFORE it kills the children and runs the
+// OnKill handler (the first clean-up of the kill chain: `ord1` of `incarnation a pre ord1 mid ord2` in Future/SysCover.v
+// comes before the handlers' Asks). If that clean-up is deferred to the end of the incarnation, anything on the
+// termination path that waits for such a future (the actor's own OnKill handler draining its in-flight requests, or a
+// child's OnKill handler) blocks until the future's own timeout - for ever without one -, the actor never finishes dying
+// and its registration stays. Deterministic: the asker Asks a silent actor with a one-hour timeout from a message handler,
+// is killed, and the waiting handler calls Result() with a harness-side bound; after the bound the harness closes the
+// future by hand so that the run can go on.
+type askKeep struct{ done chan struct{} }
+
+func (h *H) waitInKill() {
+	sys := h.sys
+	const bound = 2 * time.Second
+	errUnblock := errors.New("closed by the harness after the bound")
+	silent, err := sys.ActorOf(vivid.ActorFN(func(ctx vivid.ActorContext) {}))
+	if err != nil {
+		h.hit("harness", err.Error())
+		return
+	}
+	// waitBounded is what the waiting handler does: join a goroutine blocked in Result(), with a timer
+	waitBounded := func(where string, fut vivid.Future[vivid.Message]) {
+		type res struct {
+			m vivid.Message
+			e error
+		}
+		ch := make(chan res, 1)
+		t0 := time.Now()
+		go func() { m, e := fut.Result(); ch <- res{m, e} }()
+		select {
+		case x := <-ch:
+			if x.m != nil || !errors.Is(x.e, vivid.ErrorActorDeaded) {
+				h.hit("c04-pending-ask-not-failed-at-kill", fmt.Sprintf("%s: the Ask issued before the kill (never answered, timeout 1h) completed with (%v,%v) after %v, want the actor-dead error", where, x.m, x.e, time.Since(t0)))
+			}
+		case <-time.After(bound):
+			h.hit("c04-pending-ask-not-failed-at-kill", fmt.Sprintf("%s: the Ask issued before the kill (never answered, timeout 1h) is still pending %v after the termination of its asker started: it was not failed with actor-dead at the start of the kill chain, Result/Wait block, the actor cannot finish dying", where, bound))
+			fut.Close(errUnblock) // let the termination go on
+			<-ch
+		}
+	}
+	for _, inChild := range []bool{false, true} {
+		inChild := inChild
+		where := "Result() in the asker's own OnKill handler"
+		if inChild {
+			where = "Result() in the OnKill handler of a child of the asker"
+		}
+		h.count("wait-in-kill")
+		var mu sync.Mutex
+		var kept vivid.Future[vivid.Message]
+		get := func() vivid.Future[vivid.Message] { mu.Lock(); defer mu.Unlock(); return kept }
+		terminated := make(chan struct{})
+		var once sync.Once
+		asker, err := sys.ActorOf(vivid.ActorFN(func(ctx vivid.ActorContext) {
+			switch m := ctx.Message().(type) {
+			case *vivid.OnLaunch:
+				if inChild {
+					if _, err := ctx.ActorOf(vivid.ActorFN(func(c vivid.ActorContext) {
+						if _, ok := c.Message().(*vivid.OnKill); ok {
+							if f := get(); f != nil {
+								waitBounded(where, f)
+							}
+						}
+					})); err != nil {
+						h.hit("harness", err.Error())
+					}
+				}
+			case askKeep:
+				f := ctx.Ask(silent, "in flight when the asker is killed", time.Hour)
+				mu.Lock()
+				kept = f
+				mu.Unlock()
+				close(m.done)
+			case *vivid.OnKill:
+				if f := get(); f != nil && !inChild {
+					waitBounded(where, f)
+				}
+			case *vivid.OnKilled:
+				if m.Ref.Equals(ctx.Ref()) {
+					once.Do(func() { close(terminated) })
+				}
+			}
+		}))
+		if err != nil {
+			h.hit("harness", err.Error())
+			return
+		}
+		asked := make(chan struct{})
+		sys.Tell(asker, askKeep{asked})
+		select {
+		case <-asked:
+		case <-time.After(margin):
+			h.hit("harness", "wait-in-kill: the asker did not ask")
+			continue
+		}
+		sys.Kill(asker, false, "verif: wait in kill")
+		select {
+		case <-terminated:
+		case <-time.After(bound + margin):
+			h.hit("c04-asker-never-finished-dying", fmt.Sprintf("%s: the asker has not terminated %v after it was killed", where, bound+margin))
+		}
+		// whatever happened, the future issued before the kill is completed now, exactly once
+		if f := get(); f != nil {
+			m1, e1, ok := h.resultWithin(f, margin, "wait-in-kill: the kept future")
+			if ok {
+				if m2, e2 := f.Result(); m2 != m1 || e2 != e1 {
+					h.hit("completed-twice", "wait-in-kill: second Result differs")
+				}
+			}
+		}
+	}
+}
